@@ -54,6 +54,11 @@ func (sp *SAMLServiceProvider) buildLogoutResponse(statusCodeValue string, reqID
 	statusCode.CreateAttr("Value", statusCodeValue)
 
 	doc := etree.NewDocument()
+	// Escape CR (and TAB/LF in attributes) so that values survive parsing by the recipient
+	doc.WriteSettings = etree.WriteSettings{
+		CanonicalAttrVal: true,
+		CanonicalText:    true,
+	}
 
 	// Only POST binding includes <Signature> in <AuthnRequest> (includeSig)
 	if includeSig {
